@@ -353,6 +353,14 @@ sd = bytearray(tam["bundles"][-1]["sigs"][0]["data"])
 sd[3] ^= 1
 tam["bundles"][-1]["sigs"][0]["data"] = bytes(sd)
 viol.append(("the previous SKR's last signature does not verify", dict(base1, prev=tam)))
+# the previous SKR was signed by someone else's key under our label: whichever other chain rule is switched off, the token check alone stops the run
+FOREIGN = skrgen.ksk("Kcur", 9)
+ksrxml.POOL.save()
+_zs = [[ZSKS[0], ZSKS[1]], [ZSKS[1], ZSKS[2]]]
+PREV_F = skrgen.simulate_skr(skrgen.honest_request("prev-req", T0, 2, _zs, ZP, sign=False), SCHEMA1, {**KSKS, "ksk_current": FOREIGN}, ZP)
+for rp_ in ({}, {"check_chain_keys": False}, {"check_chain_overlap": False}, {"check_chain_keys": False, "check_chain_overlap": False}):
+    viol.append((f"the previous SKR was signed by another key under our label (request_policy {rp_ or 'defaults'})", dict(base1, prev=PREV_F, ksr=successor(PREV_F, ZP), request_policy=rp_)))
+    viol.append((f"the key that signed the previous SKR is not on the token (request_policy {rp_ or 'defaults'})", dict(base2, token_keys=["ksk_next", "ksk_new"], schema="drop", request_policy=rp_)))
 for why, sc in viol:
     for existing in (None, OLD):
         go(dict(sc, why=why, out_existing=existing, force=R.random() < 0.5, answer="Yes"), "violation", "pre-sign-failure")
